@@ -2,40 +2,41 @@
 package main
 
 import (
+	"bytes"
 	"context"
-	"runtime"
-	"sync/atomic"
-	"encoding/json"
 	"fmt"
 	"math/rand"
 	"os"
 	"path/filepath"
-	"sort"
 	"strconv"
 	"strings"
 	"sync"
+	"sync/atomic"
 	"time"
 
 	"github.com/anishathalye/porcupine"
 	mcp "trpc.group/trpc-go/trpc-mcp-go"
 
 	"verifharness/lib/kit"
-	"verifharness/lib/peer"
 	"verifharness/lib/racelog"
 	"verifharness/lib/vh"
 )
 
 type op struct {
-	Reg  string // tools | prompts | resources
-	Kind string // reg | unreg | list | call
+	Reg  string // tools | prompts | resources | templates
+	Kind string // reg | unreg | unregAny | list | call | get (GetTool) | gets (GetTools)
 	Name string
 	Tag  string
+	Via  string // the public entry point used (evidence only; for resources the tag decides, see entry.go)
 }
 type out struct {
-	OK    bool     // unreg: something was removed; call: found
-	Tag   string   // call: tag returned by the handler
-	Items []string // list: "name=tag" in listing order
-	Err   string
+	OK        bool     // unreg: something was removed; call / get: found
+	Tag       string   // call: tag returned by the handler; get: tag of the descriptor
+	Items     []string // list / gets: "name=tag" in listing order
+	Parts     int      // read: number of contents in the answer
+	Mixed     bool     // call: the texts of the answer are not all the same tag
+	Err       string   // the server answered, but not with what was asked for
+	Transport string   // no answer / transport trouble: not judged
 }
 
 type regState struct {
@@ -59,71 +60,75 @@ func (s regState) key() string {
 	return strings.Join(b, ",")
 }
 
+// step is the sequential specification of one registry: an insertion-ordered map name -> tag.
+func step(ordered bool, s regState, in op, o out) (bool, regState) {
+	switch in.Kind {
+	case "reg":
+		n := s.clone()
+		if _, ok := n.tags[in.Name]; !ok {
+			n.order = append(n.order, in.Name)
+		}
+		n.tags[in.Name] = in.Tag
+		return true, n
+	case "unreg", "unregAny":
+		// unreg: UnregisterTools with one name, the error says whether it was there. unregAny: one name of an
+		// UnregisterTools call with several names that removed at least one of them (which ones is not reported).
+		_, present := s.tags[in.Name]
+		if in.Kind == "unreg" && o.OK != present {
+			return false, s
+		}
+		if !present {
+			return true, s
+		}
+		n := s.clone()
+		delete(n.tags, in.Name)
+		for i, x := range n.order {
+			if x == in.Name {
+				n.order = append(n.order[:i:i], n.order[i+1:]...)
+				break
+			}
+		}
+		return true, n
+	case "list", "gets":
+		if len(o.Items) != len(s.order) {
+			return false, s
+		}
+		if ordered {
+			for i, n := range s.order {
+				if o.Items[i] != n+"="+s.tags[n] {
+					return false, s
+				}
+			}
+			return true, s
+		}
+		seen := map[string]bool{}
+		for _, it := range o.Items {
+			if seen[it] {
+				return false, s
+			}
+			seen[it] = true
+		}
+		for _, n := range s.order {
+			if !seen[n+"="+s.tags[n]] {
+				return false, s
+			}
+		}
+		return true, s
+	case "call", "get":
+		t, present := s.tags[in.Name]
+		if !present {
+			return !o.OK, s
+		}
+		return o.OK && o.Tag == t && (in.Kind == "get" || oneHandler(in.Reg, o)), s
+	}
+	return false, s
+}
+
 func registryModel(ordered bool) porcupine.Model {
 	return porcupine.Model{
 		Init: func() interface{} { return regState{tags: map[string]string{}} },
 		Step: func(state, input, output interface{}) (bool, interface{}) {
-			s := state.(regState)
-			in := input.(op)
-			o := output.(out)
-			switch in.Kind {
-			case "reg":
-				n := s.clone()
-				if _, ok := n.tags[in.Name]; !ok {
-					n.order = append(n.order, in.Name)
-				}
-				n.tags[in.Name] = in.Tag
-				return true, n
-			case "unreg":
-				_, present := s.tags[in.Name]
-				if o.OK != present {
-					return false, s
-				}
-				if !present {
-					return true, s
-				}
-				n := s.clone()
-				delete(n.tags, in.Name)
-				for i, x := range n.order {
-					if x == in.Name {
-						n.order = append(n.order[:i:i], n.order[i+1:]...)
-						break
-					}
-				}
-				return true, n
-			case "list":
-				if len(o.Items) != len(s.order) {
-					return false, s
-				}
-				if ordered {
-					for i, n := range s.order {
-						if o.Items[i] != n+"="+s.tags[n] {
-							return false, s
-						}
-					}
-					return true, s
-				}
-				seen := map[string]bool{}
-				for _, it := range o.Items {
-					if seen[it] {
-						return false, s
-					}
-					seen[it] = true
-				}
-				for _, n := range s.order {
-					if !seen[n+"="+s.tags[n]] {
-						return false, s
-					}
-				}
-				return true, s
-			case "call":
-				t, present := s.tags[in.Name]
-				if !present {
-					return !o.OK, s
-				}
-				return o.OK && o.Tag == t, s
-			}
-			return false, s
+			return step(ordered, state.(regState), input.(op), output.(out))
 		},
 		Equal: func(a, b interface{}) bool { return a.(regState).key() == b.(regState).key() },
 		DescribeOperation: func(i, o interface{}) string {
@@ -132,146 +137,29 @@ func registryModel(ordered bool) porcupine.Model {
 	}
 }
 
-type rig struct {
-	in  *kit.Instance
-	url string
-}
-
-func (g *rig) register(o op) {
-	tag := o.Tag
-	switch o.Reg {
-	case "tools":
-		g.in.RegisterTool(mcp.NewTool(o.Name, mcp.WithDescription(tag)), func(ctx context.Context, req *mcp.CallToolRequest) (*mcp.CallToolResult, error) {
-			return mcp.NewTextResult(tag), nil
-		})
-	case "prompts":
-		g.in.RegisterPrompt(&mcp.Prompt{Name: o.Name, Description: tag}, func(ctx context.Context, req *mcp.GetPromptRequest) (*mcp.GetPromptResult, error) {
-			return &mcp.GetPromptResult{Description: tag, Messages: []mcp.PromptMessage{{Role: mcp.RoleUser, Content: mcp.NewTextContent(tag)}}}, nil
-		})
-	case "resources":
-		name := o.Name
-		g.in.RegisterResource(&mcp.Resource{URI: name, Name: name, Description: tag}, func(ctx context.Context, req *mcp.ReadResourceRequest) (mcp.ResourceContents, error) {
-			return mcp.TextResourceContents{URI: name, Text: tag}, nil
-		})
-	}
-}
-
-type client struct {
-	hp  *peer.HTTPPeer
-	sid string
-	url string
-	n   int
-}
-
-func newClient(url string) (*client, error) {
-	c := &client{hp: peer.NewHTTPPeer(), url: url}
-	re := c.hp.Do(context.Background(), "POST", url, map[string]string{"Content-Type": "application/json", "Accept": "application/json"}, kit.InitBody("1", ""))
-	if re.Status != 200 || re.Sess == "" {
-		return nil, fmt.Errorf("initialize: status %d", re.Status)
-	}
-	c.sid = re.Sess
-	return c, nil
-}
-
-func (c *client) rpc(method, params string) (map[string]json.RawMessage, error) {
-	c.n++
-	body := fmt.Sprintf(`{"jsonrpc":"2.0","id":%d,"method":"%s","params":%s}`, c.n, method, params)
-	re := c.hp.Do(context.Background(), "POST", c.url, map[string]string{"Content-Type": "application/json", "Accept": "application/json", "Mcp-Session-Id": c.sid}, []byte(body))
-	if re.Status != 200 {
-		return nil, fmt.Errorf("status %d err %s", re.Status, re.Err)
-	}
-	var m map[string]json.RawMessage
-	if err := json.Unmarshal(re.Body, &m); err != nil {
-		return nil, err
-	}
-	return m, nil
-}
-
-func (c *client) do(o op) out {
-	switch o.Kind {
-	case "list":
-		method, field, nameKey := "tools/list", "tools", "name"
-		if o.Reg == "prompts" {
-			method, field = "prompts/list", "prompts"
-		} else if o.Reg == "resources" {
-			method, field, nameKey = "resources/list", "resources", "uri"
-		}
-		m, err := c.rpc(method, "{}")
-		if err != nil {
-			return out{Err: err.Error()}
-		}
-		var res map[string]json.RawMessage
-		if json.Unmarshal(m["result"], &res) != nil {
-			return out{Err: "no result: " + string(m["error"])}
-		}
-		var items []map[string]interface{}
-		if err := json.Unmarshal(res[field], &items); err != nil {
-			return out{Err: "list field: " + err.Error()}
-		}
-		o2 := out{OK: true}
-		for _, it := range items {
-			n, _ := it[nameKey].(string)
-			d, _ := it["description"].(string)
-			o2.Items = append(o2.Items, n+"="+d)
-		}
-		return o2
-	case "call":
-		var m map[string]json.RawMessage
-		var err error
-		switch o.Reg {
-		case "tools":
-			m, err = c.rpc("tools/call", fmt.Sprintf(`{"name":%q,"arguments":{}}`, o.Name))
-		case "prompts":
-			m, err = c.rpc("prompts/get", fmt.Sprintf(`{"name":%q}`, o.Name))
-		default:
-			m, err = c.rpc("resources/read", fmt.Sprintf(`{"uri":%q}`, o.Name))
-		}
-		if err != nil {
-			return out{Err: err.Error()}
-		}
-		if m["error"] != nil {
-			return out{OK: false}
-		}
-		s := string(m["result"])
-		// the tag is the only text in the result
-		var any interface{}
-		json.Unmarshal(m["result"], &any)
-		return out{OK: true, Tag: findTag(any), Err: errIfEmpty(s)}
-	}
-	return out{}
-}
-
-func errIfEmpty(s string) string {
-	if s == "" {
-		return "empty result"
-	}
-	return ""
-}
-
-func findTag(v interface{}) string {
-	switch x := v.(type) {
-	case map[string]interface{}:
-		if t, ok := x["text"].(string); ok {
-			return t
-		}
-		keys := make([]string, 0, len(x))
-		for k := range x {
-			keys = append(keys, k)
-		}
-		sort.Strings(keys)
-		for _, k := range keys {
-			if t := findTag(x[k]); t != "" {
-				return t
+// templateModel: the statement says that registering a name again replaces the entry; the library's template registry
+// keeps the first registration of a name (RegisterResourceTemplate drops the manager's "already exists" error). Which of
+// the two happens is not what C12 is about, so both are admitted — per registration, as two successor states — and
+// what is judged is that every templates list is the set of ONE such state: each registered name exactly once, with
+// the descriptor of one of its registrations, consistently over the lists that follow.
+func templateModel() porcupine.Model {
+	nm := porcupine.NondeterministicModel{
+		Init: func() []interface{} { return []interface{}{regState{tags: map[string]string{}}} },
+		Step: func(state, input, output interface{}) []interface{} {
+			s, in := state.(regState), input.(op)
+			if _, exists := s.tags[in.Name]; in.Kind == "reg" && exists {
+				_, replaced := step(false, s, in, output.(out))
+				return []interface{}{s, replaced}
 			}
-		}
-	case []interface{}:
-		for _, e := range x {
-			if t := findTag(e); t != "" {
-				return t
+			ok, n := step(false, s, in, output.(out))
+			if !ok {
+				return nil
 			}
-		}
+			return []interface{}{n}
+		},
+		Equal: func(a, b interface{}) bool { return a.(regState).key() == b.(regState).key() },
 	}
-	return ""
+	return nm.ToModel()
 }
 
 // history runs one concurrent history against a fresh server and checks it per registry.
@@ -281,45 +169,69 @@ func history(r *vh.Run, h int, kind kit.Kind) {
 	defer in.Close()
 	g := &rig{in: in, url: in.URL()}
 	regs := []string{"tools", "prompts", "resources"}
-	names := map[string][]string{"tools": {"t-a", "t-b", "t-c", "stable"}, "prompts": {"p-a", "p-b", "stable"}, "resources": {"res://a", "res://b", "res://c", "res://stable"}}
-	// "stable" entries exist throughout
-	for _, rg := range regs {
-		st := names[rg][len(names[rg])-1]
-		g.register(op{Reg: rg, Kind: "reg", Name: st, Tag: "stable-v0"})
-	}
+	// one template name is also a resource URI: the two registries share the resource manager and its lock
+	names := map[string][]string{"tools": {"t-a", "t-b", "t-c", "stable"}, "prompts": {"p-a", "p-b", "stable"}, "resources": {"res://a", "res://b", "res://c", "res://stable"},
+		"templates": {"tp-a", "tp-b", "res://a"}}
 	var mu sync.Mutex
 	ops := map[string][]porcupine.Operation{}
-	// the initial registration is part of every registry's history
+	// "stable" entries exist throughout; the initial registration is part of every registry's history
 	for _, rg := range regs {
 		st := names[rg][len(names[rg])-1]
-		ops[rg] = append(ops[rg], porcupine.Operation{ClientId: 0, Input: op{Reg: rg, Kind: "reg", Name: st, Tag: "stable-v0"}, Call: 0, Output: out{}, Return: 1})
+		o := op{Reg: rg, Kind: "reg", Name: st, Tag: "stable-v0"}
+		g.register(o)
+		ops[rg] = append(ops[rg], porcupine.Operation{ClientId: 0, Input: o, Call: 0, Output: out{}, Return: 1})
+	}
+	if hasTemplateList(kind) {
+		regs = append(regs, "templates")
+	}
+	// Notification handlers: a Streamable server runs the handler before it answers the POST that carried the
+	// notification, so which handler ran (if any) is known when the POST returns; the legacy SSE and stdio servers
+	// start it in a goroutine (their handler tables are exercised by the hammer).
+	var ran sync.Map // nonce -> tag of the handler that ran
+	if kind.IsStreamable() {
+		regs = append(regs, "handlers")
+		names["handlers"] = []string{"notifications/n-a", "notifications/n-b"}
 	}
 	t0 := time.Now()
 	now := func() int64 { return int64(time.Since(t0)) + 10 }
 	nWorkers := 4 + rng.Intn(3)
-	per := 5 + rng.Intn(4)
+	per := 6 + rng.Intn(5)
 	seeds := make([]int64, nWorkers)
 	for i := range seeds {
 		seeds[i] = rng.Int63()
 	}
 	var wg sync.WaitGroup
 	tagN := 0
+	entryPoints := map[string]int{}
 	for w := 0; w < nWorkers; w++ {
 		wg.Add(1)
 		go func(w int) {
 			defer wg.Done()
 			wr := rand.New(rand.NewSource(seeds[w]))
-			var cl *client
+			var cl *wconn
+			record := func(rg string, o op, res out, call, ret int64, sub int) {
+				mu.Lock()
+				ops[rg] = append(ops[rg], porcupine.Operation{ClientId: (w+1)*8 + sub, Input: o, Call: call, Output: res, Return: ret})
+				if o.Via != "" {
+					entryPoints[o.Via]++
+				}
+				mu.Unlock()
+			}
 			for i := 0; i < per; i++ {
 				rg := regs[wr.Intn(len(regs))]
 				nm := names[rg][wr.Intn(len(names[rg]))]
 				kinds := []string{"reg", "reg", "list", "list", "call", "call"}
-				if rg == "tools" {
-					kinds = append(kinds, "unreg")
+				switch rg {
+				case "tools":
+					kinds = append(kinds, "unreg", "unregN", "get", "gets")
+				case "templates":
+					kinds = []string{"reg", "reg", "list", "list"}
+				case "handlers":
+					kinds = []string{"reg", "reg", "unregH", "call", "call", "call"}
 				}
 				k := kinds[wr.Intn(len(kinds))]
 				if nm == "stable" || nm == "res://stable" {
-					if k == "unreg" {
+					if k == "unreg" || k == "unregN" {
 						k = "call"
 					}
 				}
@@ -328,260 +240,185 @@ func history(r *vh.Run, h int, kind kit.Kind) {
 				var call, ret int64
 				switch k {
 				case "reg":
+					o.Via = map[string]string{"tools": "RegisterTool", "prompts": "RegisterPrompt", "resources": "RegisterResource", "templates": "RegisterResourceTemplate"}[rg]
+					via := "single"
+					if rg == "resources" && wr.Intn(2) == 0 {
+						via, o.Via = "multi", "RegisterResources"
+					}
 					mu.Lock()
 					tagN++
-					o.Tag = fmt.Sprintf("v%d-w%d", tagN, w)
+					o.Tag = withVia(fmt.Sprintf("v%d-w%d", tagN, w), via)
 					mu.Unlock()
+					if rg == "handlers" {
+						o.Via = "RegisterNotificationHandler"
+						tag := o.Tag
+						call = now()
+						g.registerNotification(nm, func(ctx context.Context, n *mcp.JSONRPCNotification) error {
+							if nonce, ok := n.Params.AdditionalFields["nonce"].(string); ok {
+								if prev, twice := ran.LoadOrStore(nonce, tag); twice {
+									ran.Store(nonce, prev.(string)+"+"+tag)
+								}
+							}
+							return nil
+						})
+						ret = now()
+						break
+					}
 					call = now()
 					g.register(o)
 					ret = now()
+				case "unregH":
+					o.Kind, o.Via = "unregAny", "UnregisterNotificationHandler"
+					call = now()
+					g.unregisterNotification(nm)
+					ret = now()
 				case "unreg":
+					o.Via = "UnregisterTools(1)"
 					call = now()
 					err := in.UnregisterTools(nm)
 					ret = now()
 					res = out{OK: err == nil}
+				case "unregN":
+					// several names in one call: other tools, a name twice, a name that was never registered
+					list := []string{nm}
+					for _, x := range names["tools"][:3] {
+						if x != nm && wr.Intn(2) == 0 {
+							list = append(list, x)
+						}
+					}
+					if wr.Intn(2) == 0 {
+						list = append(list, "never-registered")
+					}
+					if wr.Intn(3) == 0 {
+						list = append(list, nm)
+					}
+					wr.Shuffle(len(list), func(a, b int) { list[a], list[b] = list[b], list[a] })
+					call = now()
+					err := in.UnregisterTools(list...)
+					ret = now()
+					// The call is not promised to be one step: it goes into the history as one removal per distinct
+					// name, all with the call's interval. No name removed (error): each of them was absent. One
+					// distinct name: the error says whether it was there. Otherwise which ones were there is open.
+					var distinct []string
+					for _, x := range list {
+						dup := false
+						for _, y := range distinct {
+							dup = dup || x == y
+						}
+						if !dup {
+							distinct = append(distinct, x)
+						}
+					}
+					real := 0
+					for _, x := range distinct {
+						if x != "never-registered" {
+							real++
+						}
+					}
+					for j, x := range distinct {
+						part := op{Reg: rg, Kind: "unregAny", Name: x, Tag: fmt.Sprintf("part of UnregisterTools(%s)", strings.Join(list, ","))}
+						if err != nil || (real == 1 && x != "never-registered") {
+							part.Kind = "unreg"
+						}
+						record(rg, part, out{OK: err == nil}, call, ret, j)
+					}
+					mu.Lock()
+					entryPoints["UnregisterTools(n)"]++
+					mu.Unlock()
+					continue
+				case "get":
+					o.Via = "GetTool"
+					call = now()
+					t, ok := g.getTool(nm)
+					ret = now()
+					res = out{OK: ok, Tag: t.Description}
+					if ok && t.Name != nm {
+						r.Violation(fmt.Sprintf("C12|%s|tools|GetTool|wrong-descriptor", kind), fmt.Sprintf("%s: GetTool(%q) returned the descriptor of %q", kind, nm, t.Name), nil)
+						continue
+					}
+				case "gets":
+					o.Via = "GetTools"
+					call = now()
+					ts := g.getTools()
+					ret = now()
+					res = out{OK: true}
+					for _, t := range ts {
+						res.Items = append(res.Items, t.Name+"="+t.Description)
+					}
 				default:
 					if cl == nil {
-						c, err := newClient(g.url)
+						c, err := dialW(in)
 						if err != nil {
-							r.Violation("C12|"+string(kind)+"|client-handshake", err.Error(), nil)
+							r.Inconclusive(fmt.Sprintf("history %d on %s: a session could not be opened: %v", h, kind, err))
 							return
 						}
 						cl = c
-						defer cl.hp.Close()
+						defer cl.close()
 					}
 					call = now()
-					res = cl.do(o)
+					if rg == "handlers" {
+						mu.Lock()
+						tagN++
+						nonce := fmt.Sprintf("nonce-%d", tagN)
+						mu.Unlock()
+						if !cl.notifyP(nm, fmt.Sprintf(`{"nonce":%q}`, nonce)) {
+							res = out{Transport: "the notification was not accepted"}
+						} else if v, ok := ran.Load(nonce); ok {
+							res = out{OK: true, Tag: v.(string)}
+						}
+					} else {
+						res = cl.do(o)
+					}
 					ret = now()
+					if res.Transport != "" {
+						r.Inconclusive(fmt.Sprintf("history %d on %s: %s %s: %s", h, kind, rg, k, res.Transport))
+						continue
+					}
 					if res.Err != "" {
 						r.Violation(fmt.Sprintf("C12|%s|%s|%s|request-failed", kind, rg, k), fmt.Sprintf("%s: %s %s failed: %s", kind, rg, k, res.Err), nil)
 						continue
 					}
 				}
-				mu.Lock()
-				ops[rg] = append(ops[rg], porcupine.Operation{ClientId: w + 1, Input: o, Call: call, Output: res, Return: ret})
-				mu.Unlock()
+				record(rg, o, res, call, ret, 7)
 			}
 		}(w)
 	}
 	wg.Wait()
 	for _, rg := range regs {
 		r.Eval(1)
-		res, _ := porcupine.CheckOperationsVerbose(registryModel(rg == "resources"), ops[rg], 20*time.Second)
+		model := registryModel(rg == "resources")
+		if rg == "templates" {
+			model = templateModel()
+		}
+		res, _ := porcupine.CheckOperationsVerbose(model, ops[rg], 20*time.Second)
 		switch res {
 		case porcupine.Illegal:
 			var desc []string
 			for _, o := range ops[rg] {
 				desc = append(desc, fmt.Sprintf("c%d [%d,%d] %+v -> %+v", o.ClientId, o.Call, o.Return, o.Input, o.Output))
 			}
-			r.Violation(fmt.Sprintf("C12|%s|%s|not-linearizable", kind, rg), fmt.Sprintf("%s: a concurrent history of register/unregister/list/call on the %s registry is not linearizable (torn / phantom / duplicate entry, wrong order, stale handler, or a call to a registered entry failing)", kind, rg), map[string]interface{}{"history": desc})
+			r.Violation(fmt.Sprintf("C12|%s|%s|not-linearizable", kind, rg), fmt.Sprintf("%s: a concurrent history of register/unregister/list/call on the %s registry (every public entry point) is not linearizable (torn / phantom / duplicate entry, wrong order, stale handler, an answer put together from two handlers, or a call to a registered entry failing)", kind, rg), map[string]interface{}{"history": desc})
 		case porcupine.Unknown:
 			r.Inconclusive(fmt.Sprintf("porcupine timeout: history %d registry %s (%d ops)", h, rg, len(ops[rg])))
 		default:
 			r.Distinct(fmt.Sprintf("%s|%s|ops=%d", kind, rg, len(ops[rg])/4*4))
 			r.Count("ops_checked", int64(len(ops[rg])))
+			r.Count("ops_checked_"+rg, int64(len(ops[rg])))
+			r.Count("histories_checked|"+string(kind), 1)
 		}
+	}
+	for ep, n := range entryPoints {
+		r.Count("history_ops_through_"+ep, int64(n))
 	}
 	if h == 0 {
-		var desc []string
-		for _, o := range ops["tools"] {
-			desc = append(desc, fmt.Sprintf("c%d %+v -> %+v", o.ClientId, o.Input, o.Output))
-		}
-		r.Sample(map[string]interface{}{"kind": kind, "registry": "tools", "history": desc})
-	}
-}
-
-// hammer: high-rate mixed operations to provoke the runtime's concurrent-map detector / the race detector.
-func hammer(r *vh.Run, kind kit.Kind, iters int) {
-	in := kit.Start(kind, kit.Opts{})
-	defer in.Close()
-	g := &rig{in: in, url: in.URL()}
-	for _, rg := range []string{"tools", "prompts", "resources"} {
-		g.register(op{Reg: rg, Name: map[string]string{"tools": "stable", "prompts": "stable", "resources": "res://stable"}[rg], Tag: "s"})
-	}
-	stop := make(chan struct{})
-	var wg sync.WaitGroup
-	for w := 0; w < 4; w++ {
-		wg.Add(1)
-		go func(w int) {
-			defer wg.Done()
-			i := 0
-			for {
-				select {
-				case <-stop:
-					return
-				default:
-				}
-				i++
-				n := fmt.Sprintf("h-%d-%d", w, i%7)
-				g.register(op{Reg: "tools", Name: n, Tag: "x"})
-				g.register(op{Reg: "prompts", Name: n, Tag: "x"})
-				g.register(op{Reg: "resources", Name: "res://" + n, Tag: "x"})
-				in.UnregisterTools(n)
-				if in.Server != nil {
-					in.Server.RegisterNotificationHandler("notifications/"+n, func(ctx context.Context, n *mcp.JSONRPCNotification) error { return nil })
-					in.Server.UnregisterNotificationHandler("notifications/" + n)
-				}
+		for _, rg := range []string{"tools", "resources"} {
+			var desc []string
+			for _, o := range ops[rg] {
+				desc = append(desc, fmt.Sprintf("c%d %+v -> %+v", o.ClientId, o.Input, o.Output))
 			}
-		}(w)
-	}
-	// one goroutine keeps RE-registering the stable entries with the same tag: replacement must be atomic, a
-	// call or list in between must never find them absent
-	wg.Add(1)
-	go func() {
-		defer wg.Done()
-		for {
-			select {
-			case <-stop:
-				return
-			default:
-			}
-			g.register(op{Reg: "tools", Name: "stable", Tag: "s"})
-			g.register(op{Reg: "prompts", Name: "stable", Tag: "s"})
-			g.register(op{Reg: "resources", Name: "res://stable", Tag: "s"})
-		}
-	}()
-	var cw sync.WaitGroup
-	for w := 0; w < 6; w++ {
-		cw.Add(1)
-		go func(w int) {
-			defer cw.Done()
-			cl, err := newClient(g.url)
-			if err != nil {
-				return
-			}
-			defer cl.hp.Close()
-			for i := 0; i < iters; i++ {
-				for _, rg := range []string{"tools", "prompts", "resources"} {
-					st := map[string]string{"tools": "stable", "prompts": "stable", "resources": "res://stable"}[rg]
-					res := cl.do(op{Reg: rg, Kind: "call", Name: st})
-					r.Eval(1)
-					if res.Err != "" || !res.OK || res.Tag != "s" {
-						r.Violation(fmt.Sprintf("C12|%s|%s|hammer|stable-entry-call-failed", kind, rg), fmt.Sprintf("%s: a call to an entry registered throughout failed or returned another handler's value: %+v", kind, res), nil)
-					}
-					lres := cl.do(op{Reg: rg, Kind: "list"})
-					found := false
-					for _, it := range lres.Items {
-						if it == st+"=s" {
-							found = true
-						}
-					}
-					if lres.Err == "" && !found {
-						r.Violation(fmt.Sprintf("C12|%s|%s|hammer|stable-entry-missing-from-list", kind, rg), fmt.Sprintf("%s: a %s list does not show an entry that is registered throughout (it is only ever re-registered)", kind, rg), nil)
-					}
-					if nres := cl.do(op{Reg: rg, Kind: "call", Name: "never-registered"}); nres.Err == "" && nres.OK {
-						r.Violation(fmt.Sprintf("C12|%s|%s|hammer|never-registered-entry-served", kind, rg), fmt.Sprintf("%s: a call to a never-registered %s entry succeeded", kind, rg), nil)
-					}
-				}
-				cl.hp.Do(context.Background(), "POST", g.url, map[string]string{"Content-Type": "application/json", "Accept": "application/json", "Mcp-Session-Id": cl.sid}, []byte(`{"jsonrpc":"2.0","method":"notifications/h-0-1"}`))
-			}
-		}(w)
-	}
-	cw.Wait()
-	close(stop)
-	wg.Wait()
-	r.Distinct("hammer|" + string(kind))
-}
-
-// sameName: several goroutines register the SAME fresh name at the same instant (released together by a spin
-// barrier), round after round, on every registry; afterwards and meanwhile no list may show a name twice and the
-// final lists must hold every name exactly once (resources: in the order of first registration rounds).
-func sameName(r *vh.Run, kind kit.Kind, rounds int) {
-	in := kit.Start(kind, kit.Opts{})
-	defer in.Close()
-	g := &rig{in: in, url: in.URL()}
-	const W = 8
-	var round atomic.Int64
-	var arrived atomic.Int64
-	var wg sync.WaitGroup
-	stop := make(chan struct{})
-	dupSeen := atomic.Int64{}
-	// a reader lists all the time
-	var rw sync.WaitGroup
-	rw.Add(1)
-	go func() {
-		defer rw.Done()
-		cl, err := newClient(g.url)
-		if err != nil {
-			return
-		}
-		defer cl.hp.Close()
-		for {
-			select {
-			case <-stop:
-				return
-			default:
-			}
-			for _, rg := range []string{"tools", "prompts", "resources"} {
-				res := cl.do(op{Reg: rg, Kind: "list"})
-				seen := map[string]bool{}
-				for _, it := range res.Items {
-					n := it[:strings.Index(it, "=")]
-					if seen[n] && dupSeen.Add(1) == 1 {
-						r.Violation(fmt.Sprintf("C12|%s|%s|same-name|duplicate-entry-in-list", kind, rg), fmt.Sprintf("%s: a %s list shows the entry %q twice", kind, rg, n), map[string]interface{}{"entries": len(res.Items)})
-					}
-					seen[n] = true
-				}
-			}
-		}
-	}()
-	for w := 0; w < W; w++ {
-		wg.Add(1)
-		go func(w int) {
-			defer wg.Done()
-			for rd := int64(1); rd <= int64(rounds); rd++ {
-				arrived.Add(1)
-				for round.Load() < rd { // spin barrier: everybody starts the round at the same instant
-				}
-				n := fmt.Sprintf("same-%d", rd)
-				g.register(op{Reg: "tools", Name: n, Tag: fmt.Sprint(w)})
-				g.register(op{Reg: "prompts", Name: n, Tag: fmt.Sprint(w)})
-				g.register(op{Reg: "resources", Name: "res://" + n, Tag: fmt.Sprint(w)})
-			}
-		}(w)
-	}
-	for rd := int64(1); rd <= int64(rounds); rd++ {
-		for arrived.Load() < rd*W {
-			runtime.Gosched()
-		}
-		round.Store(rd)
-	}
-	wg.Wait()
-	close(stop)
-	rw.Wait()
-	cl, err := newClient(g.url)
-	if err != nil {
-		r.Violation("C12|"+string(kind)+"|client-handshake", err.Error(), nil)
-		return
-	}
-	defer cl.hp.Close()
-	for _, rg := range []string{"tools", "prompts", "resources"} {
-		res := cl.do(op{Reg: rg, Kind: "list"})
-		r.Eval(1)
-		count := map[string]int{}
-		for _, it := range res.Items {
-			count[it[:strings.Index(it, "=")]]++
-		}
-		dups, missing := 0, 0
-		for rd := 1; rd <= rounds; rd++ {
-			n := fmt.Sprintf("same-%d", rd)
-			if rg == "resources" {
-				n = "res://" + n
-			}
-			switch {
-			case count[n] > 1:
-				dups++
-			case count[n] == 0:
-				missing++
-			}
-		}
-		if dups > 0 || missing > 0 || len(res.Items) != rounds {
-			r.Violation(fmt.Sprintf("C12|%s|%s|same-name|list-not-the-registered-set", kind, rg), fmt.Sprintf("%s: after %d rounds of %d goroutines registering the same new name, the %s list has %d entries: %d names twice, %d missing", kind, rounds, W, rg, len(res.Items), dups, missing), nil)
-		} else {
-			r.Distinct(fmt.Sprintf("same-name|%s|%s", kind, rg))
+			r.Sample(map[string]interface{}{"kind": kind, "registry": rg, "history": desc})
 		}
 	}
-	r.Count("same_name_rounds", int64(rounds))
 }
 
 func child() {
@@ -621,17 +458,17 @@ func main() {
 		race     bool
 	}
 	var jobs []job
-	nh := r.Pick(160, 16000)
-	batch := nh / 8
-	for b := 0; b < 8; b++ {
-		k := kit.SJSON
-		if b%4 == 3 {
-			k = kit.SSSE
-		}
-		jobs = append(jobs, job{k, "hist", b * batch, (b + 1) * batch, false})
+	// histories: Streamable (JSON and SSE answers), legacy SSE and stdio servers
+	nh := r.Pick(320, 16000)
+	batch := nh / 16
+	histKinds := []kit.Kind{kit.SJSON, kit.LSSE, kit.Stdio, kit.SSSE, kit.SJSON, kit.LSSE, kit.Stdio, kit.SJSON}
+	for b := 0; b < 16; b++ {
+		jobs = append(jobs, job{histKinds[b%8], "hist", b * batch, (b + 1) * batch, false})
 	}
-	jobs = append(jobs, job{kit.SJSON, "hammer", 0, r.Pick(150, 1500), false})
-	jobs = append(jobs, job{kit.SJSON, "samename", 0, r.Pick(3000, 20000), false})
+	threeKinds := []kit.Kind{kit.SJSON, kit.LSSE, kit.Stdio} // the three server types: Server, SSEServer, StdioServer
+	for _, k := range threeKinds {
+		jobs = append(jobs, job{k, "hammer", 0, r.Pick(120, 1200), false})
+	}
 	// list filters that modify the slices / descriptors they are handed (filters.go): Streamable JSON, Streamable SSE
 	// and legacy SSE servers; run indices are disjoint so that every run has its own PRNG stream
 	fb := r.Pick(1, 4)
@@ -644,9 +481,66 @@ func main() {
 	raceBin := os.Getenv("VH_RACE_BIN")
 	if _, err := os.Stat(raceBin); err == nil {
 		jobs = append(jobs, job{kit.SJSON, "hammer", 0, r.Pick(60, 600), true}, job{kit.SJSON, "hist", 100000, 100000 + r.Pick(20, 200), true})
+		jobs = append(jobs, job{kit.LSSE, "hammer", 0, r.Pick(30, 300), true}, job{kit.Stdio, "hammer", 0, r.Pick(30, 300), true})
+		jobs = append(jobs, job{kit.LSSE, "hist", 100000, 100000 + r.Pick(10, 100), true}, job{kit.Stdio, "hist", 100000, 100000 + r.Pick(10, 100), true})
+		jobs = append(jobs, job{kit.SJSON, "samename", 0, r.Pick(60, 600), true})
 		jobs = append(jobs, job{kit.SJSON, "filters", 1000, 1000 + r.Pick(1, 3), true}, job{kit.LSSE, "filters", 1000, 1000 + r.Pick(1, 3), true})
 	} else {
 		r.Note("race-detector flavour not built: race part skipped")
+	}
+	var nViol atomic.Int64
+	runJob := func(i int, j job) {
+		tag := fmt.Sprintf("%s-%s-%d", j.mode, j.kind, i)
+		env := append(r.ChildEnvFor(), "C12_KIND="+string(j.kind), "C12_MODE="+j.mode, "C12_FROM="+strconv.Itoa(j.from), "C12_TO="+strconv.Itoa(j.to))
+		var res *vh.ChildResult
+		logPrefix := ""
+		if j.race {
+			tag += "-race"
+			logPrefix = filepath.Join(r.OutDir, "race", tag)
+			os.MkdirAll(filepath.Dir(logPrefix), 0o755)
+			old, _ := filepath.Glob(logPrefix + ".*")
+			for _, f := range old {
+				os.Remove(f)
+			}
+			env = append(env, "C12_RACE=1", "GORACE=halt_on_error=0 log_path="+logPrefix)
+			res = r.SpawnChildBin(raceBin, "c12", tag, nil, env, nil, 15*time.Minute)
+		} else {
+			res = r.SpawnChild("c12", tag, nil, env, nil, 15*time.Minute)
+		}
+		stdout := res.Stdout()
+		nViol.Add(int64(bytes.Count(stdout, []byte(`{"t":"viol"`))))
+		cr := r.Merge(stdout)
+		if !cr.Done {
+			stderr := res.Stderr()
+			if res.TimedOut {
+				r.Inconclusive("child " + tag + " hit the watchdog")
+			} else {
+				crash := vh.CrashLine(stderr)
+				nViol.Add(1)
+				r.Violation(fmt.Sprintf("C12|%s|process-death|%s", j.kind, vh.FirstLibFrame(stderr)), fmt.Sprintf("%s: the server process died while registries changed under load: %s", j.kind, crash),
+					map[string]interface{}{"crash": crash, "first_library_frame": vh.FirstLibFrame(stderr), "stderr_head": head(stderr)})
+			}
+		}
+		if j.race {
+			reps := racelog.ParseGlob(logPrefix)
+			r.Count("race_reports", int64(len(reps)))
+			for pair, rs := range racelog.Dedupe(reps) {
+				if !rs[0].InLib {
+					continue
+				}
+				if !strings.Contains(pair, "Manager") && !strings.Contains(pair, "NotificationHandler") && !strings.Contains(pair, "handleServerNotification") && !strings.Contains(pair, "HandleNotification") && !strings.Contains(pair, "handleNotification") {
+					continue // races elsewhere are C20's business
+				}
+				nViol.Add(1)
+				r.Violation("C12|race|"+pair, "data race on a registry: "+pair, map[string]interface{}{"reports": len(rs), "first": head(rs[0].Text)})
+			}
+			r.Distinct("race-flavour|" + j.mode + "|" + string(j.kind))
+		}
+	}
+	// The same-name rounds come first and one server kind at a time: their goroutines are released together by a spin
+	// barrier, and how closely together depends on the cores being free.
+	for i, k := range threeKinds {
+		runJob(1000+i, job{k, "samename", 0, r.Pick(3000, 20000), false})
 	}
 	var wg sync.WaitGroup
 	sem := make(chan struct{}, 10)
@@ -656,56 +550,32 @@ func main() {
 		go func(i int, j job) {
 			defer wg.Done()
 			defer func() { <-sem }()
-			tag := fmt.Sprintf("%s-%s-%d", j.mode, j.kind, i)
-			env := append(r.ChildEnvFor(), "C12_KIND="+string(j.kind), "C12_MODE="+j.mode, "C12_FROM="+strconv.Itoa(j.from), "C12_TO="+strconv.Itoa(j.to))
-			var res *vh.ChildResult
-			logPrefix := ""
-			if j.race {
-				logPrefix = filepath.Join(r.OutDir, "race", tag)
-				os.MkdirAll(filepath.Dir(logPrefix), 0o755)
-				old, _ := filepath.Glob(logPrefix + ".*")
-				for _, f := range old {
-					os.Remove(f)
-				}
-				env = append(env, "C12_RACE=1", "GORACE=halt_on_error=0 log_path="+logPrefix)
-				res = r.SpawnChildBin(raceBin, "c12", tag, nil, env, nil, 15*time.Minute)
-			} else {
-				res = r.SpawnChild("c12", tag, nil, env, nil, 15*time.Minute)
-			}
-			cr := r.Merge(res.Stdout())
-			if !cr.Done {
-				stderr := res.Stderr()
-				if res.TimedOut {
-					r.Inconclusive("child " + tag + " hit the watchdog")
-				} else {
-					crash := vh.CrashLine(stderr)
-					r.Violation(fmt.Sprintf("C12|%s|process-death|%s", j.kind, vh.FirstLibFrame(stderr)), fmt.Sprintf("%s: the server process died while registries changed under load: %s", j.kind, crash),
-						map[string]interface{}{"crash": crash, "first_library_frame": vh.FirstLibFrame(stderr), "stderr_head": head(stderr)})
-				}
-			}
-			if j.race {
-				reps := racelog.ParseGlob(logPrefix)
-				r.Count("race_reports", int64(len(reps)))
-				for pair, rs := range racelog.Dedupe(reps) {
-					if !rs[0].InLib {
-						continue
-					}
-					if !strings.Contains(pair, "Manager") && !strings.Contains(pair, "NotificationHandler") && !strings.Contains(pair, "handleServerNotification") {
-						continue // races elsewhere are C20's business
-					}
-					r.Violation("C12|race|"+pair, "data race on a registry: "+pair, map[string]interface{}{"reports": len(rs), "first": head(rs[0].Text)})
-				}
-				r.Distinct("race-flavour|" + j.mode)
-			}
+			runJob(i, j)
 		}(i, j)
 	}
 	wg.Wait()
-	if r.Counter("filter_views_evaluated") == 0 || r.Counter("filter_calls_that_rewrote_their_argument") == 0 || r.Counter("filter_calls_non_admin") == 0 {
+	// a run that found nothing wrong must have observed every scenario family on every server type
+	if nViol.Load() == 0 {
+		for _, k := range threeKinds {
+			if r.Counter("same_name_entries_judged_at_rest|"+string(k)) == 0 || r.Counter("hammer_lists_judged|"+string(k)) == 0 || r.Counter("histories_checked|"+string(k)) == 0 {
+				r.Fatal("the entry-point scenarios observed nothing on the %s server: %d same-name entries judged at rest, %d hammer lists judged, %d histories checked (inconclusive: %d)", k,
+					r.Counter("same_name_entries_judged_at_rest|"+string(k)), r.Counter("hammer_lists_judged|"+string(k)), r.Counter("histories_checked|"+string(k)), r.Counter("inconclusive"))
+			}
+		}
+		for _, ep := range []string{"RegisterTool", "RegisterPrompt", "RegisterResource", "RegisterResources", "RegisterResourceTemplate", "UnregisterTools(1)", "UnregisterTools(n)", "GetTool", "GetTools", "RegisterNotificationHandler", "UnregisterNotificationHandler"} {
+			if r.Counter("history_ops_through_"+ep) == 0 {
+				r.Fatal("no history operation went through %s", ep)
+			}
+		}
+	}
+	if nViol.Load() == 0 && (r.Counter("filter_views_evaluated") == 0 || r.Counter("filter_calls_that_rewrote_their_argument") == 0 || r.Counter("filter_calls_non_admin") == 0) {
 		r.Fatal("the list-filter scenarios observed nothing: %d views evaluated, %d filter calls by restricted roles, %d of them rewrote their argument",
 			r.Counter("filter_views_evaluated"), r.Counter("filter_calls_non_admin"), r.Counter("filter_calls_that_rewrote_their_argument"))
 	}
-	r.Finish("concurrent histories (4-6 workers x 5-8 ops, 3-4 names per registry) of register / unregister / list / call over the tools, prompts and resources registries of a Streamable server (JSON and SSE answers), recorded at the API boundary (in-process Register*/Unregister*, raw client sessions for list/call/get/read); every registration carries a version tag that the descriptor and the handler both expose, so a read identifies the write; each registry's history is checked for linearizability with porcupine against an ordered-map model (tools/prompts lists as sets, resources as a sequence; entries registered throughout must always be callable; never-registered ones must fail). Hammer phase: 4 mutator goroutines + 6 client sessions, in a normal and a race-detector child; process death (concurrent map access) and race reports on registry functions refute. Distinct = (server kind, registry, history size bucket). List-filter scenarios (filters.go): Streamable (JSON, SSE answers) and legacy SSE servers whose tool / prompt / resource list filters take the caller's role from a request header (context function) and MODIFY the slice they are handed the way user filters do (filter in place with in[:0], clear the tail, sort, reverse, rotate, truncate, nil entries out, delete with the append idiom, append, prepend; control: allocate) while role admin gets its argument back untouched; role,admin,role,admin sequences on every registry with registrations in between, then every role listing concurrently on its own session with one writer goroutine per registry (register / replace / unregister tools, paced by list counts) and a goroutine that reads GetTools / GetTool and scribbles on the copies, then quiescent lists. One writer per registry makes the mutation history a sequence of states; every view, stamped by a logical clock, must be the caller's filter applied (by the harness, on a private copy) to one of the states the registry had between the view's start and end: resources as a sequence (registration order), tools / prompts as a multiset, descriptors included. Descriptor field mutation through the handed pointers is exercised one request at a time; names and order of the following lists are judged, leaked field values only counted. Distinct there = (server kind, registry, role, phase).",
-		[]string{"checker timeouts are inconclusive", "the statement does not promise that a descriptor field changed by a list filter through the pointer it was handed stays invisible to later lists (the registry hands out its own descriptors): counted, not judged", "a list that is not answered within the 120 s watchdog, or a session that cannot be opened, is inconclusive", "the static lockset analysis named in the property's anchor is replaced by the race detector and the runtime map-access detector on the driven paths"})
+	r.Finish("Every public entry point into the registries is driven, on the three server types (Server = Streamable with JSON / SSE answers, SSEServer, StdioServer over in-memory streams): RegisterTool, UnregisterTools with one name and with several (absent and repeated ones included), RegisterPrompt, RegisterResource, RegisterResources, RegisterResourceTemplate, Register/UnregisterNotificationHandler, GetTool, GetTools; list / call / get / read / templates-list / notifications go over the wire on raw sessions. A registration is identified by a tag that its descriptor and every text of its handler's answer carry; for resources the tag also names the entry point (RegisterResources handlers return two contents, RegisterResource handlers one), so a read shows whether one handler answered. (1) Concurrent histories (4-6 workers x 6-10 ops, 2-4 names per registry, entry points drawn at random) recorded at the API boundary; each registry's history is checked for linearizability with porcupine against an insertion-ordered map (tools / prompts / templates / handlers lists as sets, resources as a sequence; entries registered throughout must always be callable; never-registered ones must fail; UnregisterTools with several names enters as one removal per name; a template registered again may keep the first or take the new descriptor). (2) Same-name rounds (samename.go): 8 goroutines released together by a spin barrier perform one operation each on the same fresh name, with the entry points mixed per round (all singular, all plural, alternating, one among the others, at random; tools: registrations against UnregisterTools in its forms; every third template is named like the resource), one registry per round, 4 x 3000 (thorough 20000) rounds per server type, while a wire session lists / calls / reads and a goroutine reads GetTools / GetTool, paced by round counts; lists must be a registered set for the rounds over / begun (no duplicate, phantom, missing entry, descriptor of one of the registrations, resources in round order), answers must come from one of the handlers registered for the name, and at rest descriptor and handler must be those of one registration. (3) Hammer (hammer.go): 4 mutator goroutines through all entry points (colliding on shared names) + one goroutine re-registering stable entries through each entry point in turn + 6 sessions that list, call, read, use the getters and send notifications, in a normal and a race-detector child per server type; process death (concurrent map access), race reports on registry functions, a stable entry missing / doubled / answered by half a handler, a stable notification handler not run refute. Distinct = (server kind, registry, history size bucket | entry-point mix of the round | hammer). List-filter scenarios (filters.go): Streamable (JSON, SSE answers) and legacy SSE servers whose tool / prompt / resource list filters take the caller's role from a request header (context function) and MODIFY the slice they are handed the way user filters do (filter in place with in[:0], clear the tail, sort, reverse, rotate, truncate, nil entries out, delete with the append idiom, append, prepend; control: allocate) while role admin gets its argument back untouched; role,admin,role,admin sequences on every registry with registrations in between, then every role listing concurrently on its own session with one writer goroutine per registry (register / replace / unregister tools, paced by list counts; resources through RegisterResource and RegisterResources in turn, UnregisterTools in its one-name and several-names form in turn) and a goroutine that reads GetTools / GetTool and scribbles on the copies, then quiescent lists. One writer per registry makes the mutation history a sequence of states; every view, stamped by a logical clock, must be the caller's filter applied (by the harness, on a private copy) to one of the states the registry had between the view's start and end: resources as a sequence (registration order), tools / prompts as a multiset, descriptors included. Descriptor field mutation through the handed pointers is exercised one request at a time; names and order of the following lists are judged, leaked field values only counted. Distinct there = (server kind, registry, role, phase).",
+		[]string{"checker timeouts are inconclusive", "the statement does not promise that a descriptor field changed by a list filter through the pointer it was handed stays invisible to later lists (the registry hands out its own descriptors): counted, not judged", "a list that is not answered within the 120 s watchdog, or a session that cannot be opened, is inconclusive", "the static lockset analysis named in the property's anchor is replaced by the race detector and the runtime map-access detector on the driven paths",
+			"which registration of a template name wins (the library keeps the first, the statement says the later one replaces) is left open; the stdio server has no templates list, its template registrations are only exercised",
+			"whether a notification found its handler is read off after the POST returned on Streamable servers only (they run the handler before answering); on legacy SSE / stdio servers, which start it in a goroutine, a missing run after the 60 s watchdog is inconclusive"})
 }
 
 func head(s string) string {
